@@ -2,7 +2,7 @@
 #pragma once
 #include <string>
 #include <cstdlib>
-struct Counters { int obj_live, other_live, ints_live, obj_made, other_made, ints_made; };
+struct Counters { int obj_live, other_live, ints_live, obj_made, other_made, ints_made, pool_in_use; };
 extern Counters counters;
 class Obj {
  public:
@@ -25,3 +25,5 @@ Other *makeOther();
 int *newints(int n);
 int *libints(int n);
 const std::string name(const Obj &o);
+Obj *acquire(int v);          // a slot of the library's pool: must be given back with release_obj, never deleted
+void release_obj(Obj *p);
